@@ -9,7 +9,10 @@ static int thorough;
 static size_t MAXLEN = 300, MAXBS = 130;
 static const size_t big_bs[] = { 256, 512, 1024, 4096, 65536 };
 static const size_t huge_bs[] = { (size_t) 1 << 31, (size_t) 1 << 32, ((size_t) 1 << 32) + 1, (size_t) 1 << 63,
-                                  ((size_t) 1 << 63) + 1, SIZE_MAX - 1, SIZE_MAX };
+                                  ((size_t) 1 << 63) + 1, SIZE_MAX - 1, SIZE_MAX,
+                                  /* values whose low 16 / 32 bits are zero or tiny (a narrowed block size would be 0, 1, 2, 3 ...): k * 2^32 for k not a power of two, k * 2^16 */
+                                  ((size_t) 1 << 32) - 1, (size_t) 3 << 32, (size_t) 5 << 32, ((size_t) 3 << 32) + 1, ((size_t) 3 << 32) + 2, ((size_t) 3 << 32) + 3, ((size_t) 6 << 32) + 16,
+                                  (size_t) 3 << 16, (size_t) 65537, ((size_t) 1 << 31) + 1, ((size_t) 7 << 40), ((size_t) 1 << 48) + 3, ((size_t) 0xffffffff << 32) };
 
 static int ref_unpad(size_t *out, const unsigned char *buf, size_t plen, size_t bs)
 {
@@ -77,6 +80,7 @@ static void do_len(long L)
         }
     }
     for (k = 0; k < sizeof huge_bs / sizeof huge_bs[0]; k++) {
+        snprintf(vf_ctx, sizeof vf_ctx, "sodium_pad/len=%zu/blocksize=%zu", len, huge_bs[k]);
         pad_case(len, huge_bs[k], len + 300, 1, PAT_C);   /* must be refused: cannot fit */
         pad_case(len, huge_bs[k], 0, 0, PAT_C);
     }
@@ -186,6 +190,7 @@ int main(void)
     thorough = vf_tier_thorough();
     if (thorough) { MAXLEN = 700; MAXBS = 260; }
     if (sodium_init() < 0) return 2;
+    strcpy(vf_ctx, "c16");
     vf_parallel(16, 0, (long) MAXLEN + 1, do_len, fin);
     vf_parallel(16, 0, (long) MAXBS + 1, do_unpad_bs, fin);
     vf_parallel(16, 0, (long) MAXBS + 1, do_guarded, fin);
